@@ -16,7 +16,7 @@ import lena.output
 import lena.variables
 
 from ..kernel import RunResult, Boom, PullBudgetExceeded
-from ..seams.flow import COPIES, Tok, SimSource, key_of, bump, tok_of, Pred
+from ..seams.flow import COPIES, Tok, SimSource, key_of, bump, tok_of, Pred, PredFailing
 
 PROPERTY = "C02"
 LEVEL = "exploration"
@@ -101,13 +101,14 @@ class Node(object):
         if k == "slice":
             return "Slice%r" % (self.p["args"],)
         if k == "filter":
-            return "Filter(mask=%s)" % format(self.p["mask"], "08b")
+            return "Filter(%smask=%s)" % ("Selector that takes errors for False, " if self.p.get("noraise") else "",
+                                          format(self.p["mask"], "08b"))
         if k == "runif":
             return "RunIf(mask=%s, %d calls)" % (format(self.p["mask"], "08b"), self.p["ninner"])
         if k == "split":
             return "Split([%s], bufsize=%s)" % (
                 " | ".join(", ".join(n.describe() for n in br) for br in self.branches),
-                self.p["bufsize"])
+                str(self.p["bufsize"]) + ("" if self.p.get("copy_buf", True) else ", copy_buf=False"))
         return k
 
 
@@ -169,12 +170,14 @@ def gen_nodes(tape, prefix, n, infinite, depth, counter):
         if kind == "slice":
             node = Node(kind, name, args=gen_slice(tape, infinite))
         elif kind == "filter":
-            node = Node(kind, name, mask=gen_mask(tape, infinite))
+            node = Node(kind, name, mask=gen_mask(tape, infinite),
+                        noraise=tape.chance(1, 3, "selector-takes-errors-for-false"))
         elif kind == "runif":
             node = Node(kind, name, mask=gen_mask(tape, False), ninner=tape.draw(3, "runif-inner"))
         elif kind == "split":
             bufs = [2, 1, 3, 5] if infinite else [2, 1, 3, 5, None]
-            node = Node(kind, name, bufsize=tape.choice(bufs, "bufsize"))
+            node = Node(kind, name, bufsize=tape.choice(bufs, "bufsize"),
+                        copy_buf=not tape.chance(1, 4, "copy-buf-off"))
             nb = 1 + tape.draw(3, "nbranches")
             if tape.chance(1, 10, "empty-split"):
                 nb = 0
@@ -227,6 +230,9 @@ def make_element(node, log, printed):
             return data.derive()
         return lena.variables.Variable("var_" + node.name.replace(".", "_"), getter)
     if k == "filter":
+        if node.p.get("noraise"):
+            node.pred = PredFailing(log, node.name, node.p["mask"])
+            return lena.flow.Filter(lena.flow.Selector(node.pred, raise_on_error=False))
         node.pred = Pred(log, node.name, node.p["mask"])
         return lena.flow.Filter(node.pred)
     if k == "slice":
@@ -258,6 +264,8 @@ def make_element(node, log, printed):
             # an explicit Sequence: a tuple containing Count (which also has fill and
             # compute) would be taken for a FillComputeSeq
             seqs.append(lena.core.Sequence(*els))
+        if not node.p.get("copy_buf", True):
+            return lena.core.Split(seqs, bufsize=node.p["bufsize"], copy_buf=False)
         return lena.core.Split(seqs, bufsize=node.p["bufsize"])
     raise AssertionError(k)
 
@@ -398,6 +406,17 @@ class LazyIterable(object):
         return self._src
 
 
+class SizedIterable(LazyIterable):
+    """a data set that knows its length and is read lazily"""
+
+    def __init__(self, src, n):
+        LazyIterable.__init__(self, src)
+        self._n = n
+
+    def __len__(self):
+        return self._n
+
+
 class PlainIterator(object):
     """a non-callable one-shot iterator over the simulated source"""
 
@@ -416,7 +435,10 @@ def gen_scenario(tape):
     sc.infinite = tape.chance(1, 4, "infinite")
     # source: the flow comes from a callable first element; source-iterable: from an iterable
     # (non-callable) first element
-    sc.form = tape.choice(["sequence", "source", "source-iterable", "source-iterator"], "form")
+    sc.form = tape.choice(["sequence", "source", "source-iterable", "source-iterator",
+                           "sequence-sized-iterable", "source-sized-iterable"], "form")
+    if sc.infinite and sc.form.endswith("sized-iterable"):
+        sc.form = sc.form.replace("-sized-iterable", "") if sc.form.startswith("sequence") else "source-iterable"
     sc.with_context = bool(tape.draw(2, "with-context"))
     n = 1 + tape.draw(6, "nelems")
     counter = [0]
@@ -516,6 +538,10 @@ def execute(sc, res, fault_at, log):
             gen = lena.core.Sequence(*els).run(src)
         elif sc.form == "source-iterable":
             gen = lena.core.Source(LazyIterable(src), *els)()
+        elif sc.form == "sequence-sized-iterable":
+            gen = lena.core.Sequence(*els).run(SizedIterable(src, sc.n))
+        elif sc.form == "source-sized-iterable":
+            gen = lena.core.Source(SizedIterable(src, sc.n), *els)()
         elif sc.form == "source-iterator":
             # a one-shot iterator object (not callable) as the first element
             gen = lena.core.Source(PlainIterator(src), *els)()
